@@ -489,3 +489,191 @@ Proof.
   - rewrite Uclose_gap by reflexivity. cbn [atext append].
     rewrite Uclose_inert by reflexivity. now rewrite (IH (Some AColon) HR).
 Qed.
+
+(* ---------------- pass 7: re_pareno_before, as a one-state transducer ---------------- *)
+Definition ok7 (c : ascii) : bool := not_in4 "(" ":" "^" "_" c.
+
+Fixpoint Q7 (okp : bool) (s : string) : string :=
+  match s with
+  | EmptyString => EmptyString
+  | String c r => (if is_c "(" c && okp then " (" else String c "") ++ Q7 (ok7 c) r
+  end.
+
+Lemma P7_Q7 : forall n r, String.length r <= n -> forall c,
+  sub_pareno_before (String c r) = String c (Q7 (ok7 c) r).
+Proof.
+  induction n as [|n IH]; intros r Hn c.
+  - destruct r; [reflexivity|cbn in Hn; lia].
+  - destruct r as [|d r2]; [reflexivity|]. cbn [String.length] in Hn.
+    change (sub_pareno_before (String c (String d r2))) with
+      (if not_in4 "(" ":" "^" "_" c && is_c "(" d
+       then String c (String " " (String "(" (sub_pareno_before r2)))
+       else String c (sub_pareno_before (String d r2))).
+    fold (ok7 c). cbn [Q7]. rewrite (andb_comm (is_c "(" d)).
+    destruct (ok7 c && is_c "(" d) eqn:E.
+    + apply andb_prop in E. destruct E as [_ Ed]. unfold is_c in Ed. apply Ascii.eqb_eq in Ed. subst d.
+      cbn [append]. do 3 f_equal. destruct r2 as [|e r3]; [reflexivity|].
+      rewrite (IH r3) by (cbn in Hn; lia). cbn [Q7]. change (ok7 "(") with false. rewrite andb_false_r. reflexivity.
+    + cbn [append]. f_equal. apply IH. lia.
+Qed.
+
+Lemma P7_is_Q7 s : sub_pareno_before s = Q7 false s.
+Proof.
+  destruct s as [|c r]; [reflexivity|]. rewrite (P7_Q7 (String.length r) r (le_n _) c).
+  cbn [Q7]. rewrite andb_false_r. reflexivity.
+Qed.
+
+(* a stretch of characters other than '(' whose ok7 value is uniformly k *)
+Lemma Q7_uniform k : forall t b s, t <> "" ->
+  str_forall (fun c => negb (is_c "(" c) && Bool.eqb (ok7 c) k) t = true ->
+  Q7 b (t ++ s) = t ++ Q7 k s.
+Proof.
+  induction t as [|c t IH]; intros b s Hne H; [congruence|].
+  cbn [str_forall] in H. apply andb_prop in H. destruct H as [Hc Ht].
+  apply andb_prop in Hc. destruct Hc as [Hc1 Hc2]. apply negb_true_iff in Hc1. apply Bool.eqb_prop in Hc2.
+  cbn [append Q7]. rewrite Hc1. cbn [andb append]. f_equal. rewrite Hc2.
+  destruct t as [|d t']; [reflexivity|]. apply IH; [discriminate|exact Ht].
+Qed.
+
+Lemma Q7_open b s : Q7 b ("(" ++ s) = (if b then " (" else "(") ++ Q7 false s.
+Proof. cbn [append Q7 is_c Ascii.eqb Bool.eqb andb]. destruct b; reflexivity. Qed.
+
+Lemma blanks_snoc g x : blanks g ++ String " " x = blanks (S g) ++ x.
+Proof. induction g; cbn; [reflexivity|]. cbn in IHg. now rewrite IHg. Qed.
+
+Definition ends_operand (a : atom) : bool := match a with ALit _ | ACell _ | ARP => true | _ => false end.
+
+Definition f7 (prev : option atom) (g : nat) (a : atom) : nat :=
+  match a with
+  | ALP => if Nat.ltb 0 g then S g else if opt_is ends_operand prev then 1 else 0
+  | _ => g
+  end.
+
+Lemma Q7_gap g b s : Q7 b (blanks g ++ s) = blanks g ++ Q7 (if Nat.ltb 0 g then true else b) s.
+Proof.
+  destruct g as [|g]; [reflexivity|]. apply Q7_uniform; [discriminate|].
+  apply blanks_forall. reflexivity.
+Qed.
+
+Lemma pass7 : forall its prev, all_ok its ->
+  Q7 (opt_is ends_operand prev) (irender its) = irender (imap f7 prev its).
+Proof.
+  induction its as [|[g a] R IH]; intros prev Hok; [reflexivity|].
+  inversion Hok as [|x l Ha HR]; subst. cbn [snd] in Ha. cbn [irender imap].
+  rewrite Q7_gap. set (b1 := if Nat.ltb 0 g then true else opt_is ends_operand prev).
+  assert (Hl : forall k c, lit_char c = true -> k = true -> negb (is_c "(" c) && Bool.eqb (ok7 c) k = true).
+  { intros k c Hc ->. destruct c as [[] [] [] [] [] [] [] []]; try discriminate Hc; reflexivity. }
+  destruct a as [t|ds| | | |]; cbn [f7 atext].
+  - cbn [atom_ok] in Ha. destruct Ha as [Hf Hne].
+    rewrite (Q7_uniform true t b1 _ Hne (str_forall_impl lit_char _ t (fun c Hc => Hl true c Hc eq_refl) Hf)).
+    now rewrite <- (IH (Some (ALit t)) HR).
+  - cbn [atom_ok] in Ha. destruct Ha as [Hf Hne].
+    replace (("^(" ++ ds ++ ")") ++ irender R) with ("^" ++ "(" ++ (ds ++ ")") ++ irender R)
+      by (cbn [append]; now rewrite str_app_assoc).
+    rewrite (Q7_uniform false "^" b1) by (try discriminate; reflexivity).
+    rewrite Q7_open. rewrite (Q7_uniform true (ds ++ ")")).
+    + rewrite <- (IH (Some (ACell ds)) HR). cbn [append opt_is ends_operand]. now rewrite !str_app_assoc.
+    + destruct ds; [congruence|discriminate].
+    + rewrite str_forall_app. rewrite (str_forall_impl is_digit _ ds (fun c Hc => Hl true c (digit_lit c Hc) eq_refl) Hf). reflexivity.
+  - replace ("_(" ++ irender R) with ("_" ++ "(" ++ irender R) by reflexivity.
+    rewrite (Q7_uniform false "_" b1) by (try discriminate; reflexivity).
+    rewrite Q7_open. now rewrite <- (IH (Some ANot) HR).
+  - rewrite Q7_open. rewrite <- (IH (Some ALP) HR). cbn [opt_is ends_operand]. unfold b1.
+    destruct (Nat.ltb 0 g) eqn:Eg.
+    + cbn [append]. now rewrite blanks_snoc.
+    + destruct g; [|discriminate Eg]. destruct (opt_is ends_operand prev); reflexivity.
+  - rewrite (Q7_uniform true ")" b1) by (try discriminate; reflexivity). now rewrite <- (IH (Some ARP) HR).
+  - rewrite (Q7_uniform false ":" b1) by (try discriminate; reflexivity). now rewrite <- (IH (Some AColon) HR).
+Qed.
+
+(* ---------------- pass 8: re_parenc_after, with one character of lookahead ---------------- *)
+Definition ok8 (c : ascii) : bool := not_in4 ")" ":" "^" "_" c.
+Definition hd8 (s : string) : bool := match s with String d _ => ok8 d | EmptyString => false end.
+
+Fixpoint Q8 (s : string) : string :=
+  match s with
+  | EmptyString => EmptyString
+  | String c r => (if is_c ")" c && hd8 r then ") " else String c "") ++ Q8 r
+  end.
+
+Lemma P8_Q8 : forall n s, String.length s <= n -> sub_parenc_after s = Q8 s.
+Proof.
+  induction n as [|n IH]; intros s Hn.
+  - destruct s; [reflexivity|cbn in Hn; lia].
+  - destruct s as [|c r]; [reflexivity|]. destruct r as [|d r2].
+    + cbn. rewrite andb_false_r. reflexivity.
+    + cbn [String.length] in Hn.
+      change (sub_parenc_after (String c (String d r2))) with
+        (if is_c ")" c && not_in4 ")" ":" "^" "_" d
+         then String ")" (String " " (String d (sub_parenc_after r2)))
+         else String c (sub_parenc_after (String d r2))).
+      cbn [Q8 hd8]. fold (ok8 d).
+      destruct (is_c ")" c && ok8 d) eqn:E.
+      * apply andb_prop in E. destruct E as [_ Ed].
+        assert (Hd : is_c ")" d = false) by (destruct d as [[] [] [] [] [] [] [] []]; try discriminate Ed; reflexivity).
+        rewrite Hd. cbn [andb append]. do 3 f_equal. apply IH. lia.
+      * cbn [append]. f_equal. rewrite (IH (String d r2)) by (cbn; lia). reflexivity.
+Qed.
+
+Lemma Q8_inert c r : negb (is_c ")" c) = true -> Q8 (String c r) = String c (Q8 r).
+Proof. intros H. apply negb_true_iff in H. cbn [Q8]. now rewrite H. Qed.
+
+Lemma Q8_rp s : Q8 (")" ++ s) = ")" ++ (if hd8 s then " " else "") ++ Q8 s.
+Proof. cbn [append Q8 is_c Ascii.eqb Bool.eqb andb]. destruct (hd8 s); reflexivity. Qed.
+
+Definition starts_plain (a : atom) : bool := match a with ALit _ | ALP => true | _ => false end.
+
+Definition f8 (prev : option atom) (g : nat) (a : atom) : nat :=
+  if opt_is (fun p => match p with ARP | ACell _ => true | _ => false end) prev
+  then (if Nat.ltb 0 g then S g else if starts_plain a then 1 else 0)
+  else g.
+
+Definition closes (o : option atom) : bool :=
+  opt_is (fun p => match p with ARP | ACell _ => true | _ => false end) o.
+
+(* the blank inserted after the ')' of the previous atom belongs to the gap of the next item *)
+Definition extra8 (prev : option atom) (its : items) : string :=
+  if closes prev && hd8 (irender its) then " " else "".
+
+Lemma hd8_item g a R : atom_ok a ->
+  hd8 (irender ((g, a) :: R)) = if Nat.ltb 0 g then true else starts_plain a.
+Proof.
+  intros Ha. cbn [irender]. destruct g as [|g]; [|reflexivity]. cbn [blanks append Nat.ltb Nat.leb].
+  destruct a as [t|ds| | | |]; try reflexivity. cbn [atext atom_ok starts_plain] in *.
+  destruct Ha as [Hf Hne]. destruct t as [|c r]; [congruence|]. cbn [append hd8].
+  cbn in Hf. apply andb_prop in Hf. destruct Hf as [Hc _].
+  destruct c as [[] [] [] [] [] [] [] []]; try discriminate Hc; reflexivity.
+Qed.
+
+Lemma pass8 : forall its prev, all_ok its ->
+  extra8 prev its ++ Q8 (irender its) = irender (imap f8 prev its).
+Proof.
+  induction its as [|[g a] R IH]; intros prev Hok.
+  - unfold extra8. cbn. rewrite andb_false_r. reflexivity.
+  - inversion Hok as [|x l Ha HR]; subst. cbn [snd] in Ha.
+    unfold extra8. rewrite (hd8_item g a R Ha). cbn [imap]. unfold f8 at 1. fold (closes prev).
+    assert (Hgap : forall s, Q8 (blanks g ++ s) = blanks g ++ Q8 s).
+    { intros s. apply (inert_copy Q8 (fun c => negb (is_c ")" c)) Q8_inert). now apply blanks_forall. }
+    assert (Hbody : Q8 (atext a ++ irender R) = atext a ++ irender (imap f8 (Some a) R)).
+    { assert (Hl : forall c, lit_char c = true -> negb (is_c ")" c) = true).
+      { intros c Hc. destruct (lit_char_facts c Hc) as (_ & _ & _ & _ & H4). now rewrite H4. }
+      specialize (IH (Some a) HR). unfold extra8 in IH.
+      destruct a as [t|ds| | | |]; cbn [atext closes opt_is] in *.
+      - rewrite (inert_copy Q8 _ Q8_inert t _ (str_forall_impl lit_char _ t Hl (proj1 Ha))). cbn [andb append] in IH. now rewrite IH.
+      - replace (("^(" ++ ds ++ ")") ++ irender R) with (("^(" ++ ds) ++ ")" ++ irender R)
+          by (cbn [append]; now rewrite str_app_assoc).
+        rewrite (inert_copy Q8 _ Q8_inert ("^(" ++ ds)).
+        + rewrite Q8_rp. cbn [andb] in IH. rewrite IH. cbn [append]. now rewrite !str_app_assoc.
+        + cbn [append str_forall is_c Ascii.eqb Bool.eqb andb negb].
+          exact (str_forall_impl is_digit _ ds (fun c Hc => Hl c (digit_lit c Hc)) (proj1 Ha)).
+      - cbn [append]. rewrite !Q8_inert by reflexivity. cbn [andb append] in IH. now rewrite IH.
+      - cbn [append]. rewrite !Q8_inert by reflexivity. cbn [andb append] in IH. now rewrite IH.
+      - rewrite Q8_rp. cbn [andb] in IH. now rewrite IH.
+      - cbn [append]. rewrite !Q8_inert by reflexivity. cbn [andb append] in IH. now rewrite IH. }
+    cbn [irender]. rewrite Hgap, Hbody.
+    destruct (closes prev); cbn [andb].
+    + destruct (Nat.ltb 0 g) eqn:Eg.
+      * reflexivity.
+      * destruct g; [|discriminate Eg]. destruct (starts_plain a); reflexivity.
+    + reflexivity.
+Qed.
